@@ -75,7 +75,7 @@ def run(ctx):
     ctx.rule = ("a pairwise covering array over shape {regular, n=nc+2, n<=n_neighbors, one feature, duplicates, constant column, all rows "
                 "identical, CSR rows of equal nnz, two distant clusters} x init {spectral, random, pca, tswspectral, ndarray (plain, column-major, float64, strided view, constant "
                 "column, duplicate rows, every row twice, all zeros)} x metric class x sparse x unique x n_components {1,2,5} x n_epochs "
-                "{0,1,11,None} x learning_rate {0,1}: fit_transform must return a float32 (n, n_components) array, finite except for "
+                "{0,1,11,None} x learning_rate {0,1} x densMAP on/off (always on where samples are isolated), CSR with unsorted column indices for unique=True: fit_transform must return a float32 (n, n_components) array, finite except for "
                 "isolated samples, identical rows for identical inputs under unique=True; the rescale / n_neighbors-truncation / unique "
                 "round-trip stage models are compared with the implementation; non-trivial = configuration not seen before in the run. "
                 "init='pca' with fewer features than components (rejected by scikit-learn) is outside 'valid configuration'")
@@ -99,7 +99,10 @@ def run(ctx):
                                                                      ("regular", "array-fortran"), ("two-clusters", "array-fortran"),
                                                                      ("regular", "array-strided"), ("regular", "array-float64"))]
         combos = [combos[j] for j in sorted(set(pick.tolist()) | set(must))]
+    # always present: identical samples in a non-canonical CSR matrix with unique=True; densMAP with isolated samples
+    combos += [("duplicates", "random", "euclidean", True, True, 2, 11, 1.0), ("far-pair", "random", "euclidean", False, False, 2, 11, 1.0)]
     seen = set()
+    combo_no = 0
     # corpus: the witness of the recorded open finding runs first (two distinct rows, unique=True)
     Xw = np.array([[0.0, 1.0], [2.0, 3.0]] * 6, dtype=np.float32)
     try:
@@ -140,10 +143,25 @@ def run(ctx):
             kw["n_epochs"] = 30     # the default (500) adds nothing but time
         if sh == "far-pair":
             kw["disconnection_distance"] = 100.0
+        # densMAP is one more valid configuration: every fifth combination, and every one with isolated samples and a string init
+        combo_no += 1
+        dens = (combo_no % 5 == 4 or (sh == "far-pair" and isinstance(init, str))) and n > 6 and not sparse
+        if dens:
+            kw["densmap"] = True
         case = {"shape": sh, "init": ini, "metric": metric, "sparse": sparse, "unique": unique, "n_components": nc, "n_epochs": ne,
-                "learning_rate": lr, "n": n, "X": X.tolist()}
+                "learning_rate": lr, "densmap": bool(dens), "n": n, "X": X.tolist()}
         Xf = scipy.sparse.csr_matrix(X) if sparse else X
-        desc = (sh, ini, metric, sparse, unique, nc, ne, lr)
+        if sparse and unique and sh in ("duplicates", "regular", "equal-nnz-rows"):
+            # a CSR matrix need not be canonical: column indices in any order within a row (identical samples stored differently)
+            Xf = Xf.copy()
+            for rw in range(Xf.shape[0]):
+                a_, b_ = Xf.indptr[rw], Xf.indptr[rw + 1]
+                pm = rng.permutation(b_ - a_)
+                Xf.indices[a_:b_] = Xf.indices[a_:b_][pm]
+                Xf.data[a_:b_] = Xf.data[a_:b_][pm]
+            Xf.has_sorted_indices = False
+            case["csr"] = "unsorted-indices"
+        desc = (sh, ini, metric, sparse, unique, nc, ne, lr, bool(dens))
         try:
             m = umap.UMAP(**kw)
             E = m.fit_transform(Xf)
@@ -152,6 +170,8 @@ def run(ctx):
             key = f"C05:exception:{sh}:{ini}:{type(e).__name__}"
             if unique and 2 <= ndistinct <= max(2, nc + 1):
                 key = "C05:unique-too-few-distinct-rows"       # recorded known finding (see KNOWN_FINDINGS.json)
+            elif dens and isinstance(e, ZeroDivisionError):
+                key = "C05:densmap-isolated-sample"
             ctx.violation("exception", f"fit_transform raised {type(e).__name__}: {str(e)[:160]} ({ndistinct} distinct rows)", case, key=key)
             ctx.case(key=desc, nontrivial=desc not in seen)
             seen.add(desc)
